@@ -14,11 +14,11 @@ except ImportError:
 def run(tier, seed):
     chk = vlib.Check("C13", tier, seed)
     alloc_common.run_alloc(chk, tier, seed)
-    chk.distinct = chk.stats.get("nontrivial_histories", 0)
     if sim_common is not None:
         sim_common.run_sim_for(chk, "C13", tier, seed)
+    chk.distinct = chk.stats.get("nontrivial_histories", 0) + len(chk.sigs)
     chk.rule = ("allocator engine: seeded histories of allocator operations with checkpoints every 1..24 events, fossil collections at arbitrary "
                 "targets between the oldest kept checkpoint and the current position, and rollbacks (restore + re-execution of logged operations) "
                 "to arbitrary kept positions, including right after a collection and down to the oldest kept point; 64 KiB and 2 KiB arena builds; "
                 "non-trivial history = restore to a non-checkpoint target + arena created after a checkpoint + restore right after a fossil collection")
-    return chk.finish(min_evals=20, require={"fossil_collections": 1000, "restores_right_after_fossil": 500, "restores_to_non_checkpoint_target": 500})
+    return chk.finish(min_evals=20, require={"rollbacks_right_after_fossil": 20, "fossil_collections": 500, "fossil_collections": 1000, "restores_right_after_fossil": 500, "restores_to_non_checkpoint_target": 500})
